@@ -302,10 +302,19 @@ def solve_scipy(
     else:
         status = SolverStatus.FAILED
 
-    # Compute actual objective value (undo negation for maximize)
-    obj_value = float(result.fun)
-    if problem.sense == "maximize":
-        obj_value = -obj_value
+    # Report the user's objective at the returned point. result.fun is not always
+    # the value at result.x: after an abnormal termination (e.g. a failed line
+    # search next to a pole) SciPy can hand back the value of another trial point,
+    # and COBYLA replaces inf/NaN by 1e30.
+    values = {v.name: float(result.x[i]) for i, v in enumerate(variables)}
+    try:
+        with np.errstate(all="ignore"):
+            obj_value = float(problem.objective.evaluate(values))  # type: ignore[union-attr]
+    except Exception:
+        # Fall back to the solver's own number (undo negation for maximize)
+        obj_value = float(result.fun)
+        if problem.sense == "maximize":
+            obj_value = -obj_value
 
     # Build message, noting if problem appears linear
     message = result.message if hasattr(result, "message") else ""
@@ -315,7 +324,7 @@ def solve_scipy(
     return Solution(
         status=status,
         objective_value=obj_value,
-        values={v.name: float(result.x[i]) for i, v in enumerate(variables)},
+        values=values,
         iterations=result.nit if hasattr(result, "nit") else None,
         message=message,
         solve_time=solve_time,
